@@ -27,7 +27,7 @@ MOCK_STARTUP = dict(POOL_DEFAULT, IntervalStyle="postgres", server_version="14.0
                     integer_datetimes="on", is_superuser="off")
 UNTRACKED = ["statement_timeout", "search_path", "IntervalStyle", "work_mem"]
 INVALID = "!invalid!"
-PREAMBLE = "From PV Require Import Params.Model.\nFrom Coq Require Import NArith List. Import ListNotations.\nOpen Scope N_scope."
+PREAMBLE = "From PV Require Import Params.Model.\nFrom Coq Require Import NArith List String. Import ListNotations.\nOpen Scope N_scope."
 
 # findings confirmed on the unchanged tree (ids to be listed in known_findings.jsonl)
 FINDINGS = {
@@ -40,7 +40,11 @@ FINDINGS = {
 
 # ----------------------------------------------------------------------------- helpers
 def cb(b):
-    return vlib.coq_bytes(b)
+    """bytes -> Gallina term; long values as chunked hex text (long list literals parse quadratically)"""
+    if len(b) <= 200:
+        return vlib.coq_bytes(b)
+    h = b.hex()
+    return "(" + " ++ ".join('unhex "%s"%%string' % h[i:i + 3000] for i in range(0, len(h), 3000)) + ")%list"
 
 
 def pg_quote(v: bytes, style=0) -> bytes:
@@ -133,7 +137,7 @@ NONASCII = ["café".encode(), "über".encode(), "日本語".encode(), "\U0001F60
             "naïve 'q' \\ b".encode(), "é'é\\é".encode()]
 
 
-def gen_value(rng, allow_empty=True, ascii_only=False, maxlen=3000):
+def gen_value(rng, allow_empty=True, ascii_only=False, maxlen=400):
     c = rng.random()
     if c < 0.22:
         return rng.choice(WORDS)
@@ -144,7 +148,7 @@ def gen_value(rng, allow_empty=True, ascii_only=False, maxlen=3000):
     if c < 0.76 and allow_empty:
         return b""
     if c < 0.82:
-        n = rng.choice([200, 1000, maxlen])
+        n = rng.choice([60, 150, maxlen])
         alphabet = b"abc '\\\"; -/*\n" if rng.random() < 0.6 else b"xyz"
         return bytes(rng.choice(alphabet) for _ in range(n))
     n = rng.randint(1, 12)
@@ -167,7 +171,7 @@ def spell(rng, key):
 class Scn:
     """one scenario: clients with startup packets, a script of client operations, canaries"""
 
-    def __init__(self, rng, pool_size, nclients, nops, classes=(), maxlen=3000):
+    def __init__(self, rng, pool_size, nclients, nops, classes=(), maxlen=400):
         self.pool_size = pool_size
         self.clients = []     # dict(name, pairs[(k,v) bytes], flags set)
         self.ops = []         # ("q", ci, [stmt dict]) | ("x", ci, how)
@@ -303,8 +307,9 @@ class Scn:
             stmts = []
             st = c["txn"]
             for j, k in enumerate(kinds):
-                if k in ("fail", "setinvalid") and j != len(kinds) - 1:
-                    k = "select"
+                if k in ("fail", "setinvalid") and len(kinds) > 1:
+                    k = "select"     # a failing statement only alone in its message (implicit-transaction rollback of
+                                     # multi-statement queries is modelled for pgcat's own SET batch only)
                 if k == "setlocal" and st != "T":
                     k = "set"
                 if k == "begin":
@@ -365,6 +370,31 @@ class Scn:
             m["BEGIN /*c12:z%d:1*/" % i] = ("z", i)
         return m
 
+    def to_json(self):
+        def st(x):
+            d = dict(x)
+            d["sql"] = x["sql"].hex()
+            return d
+        return {"pool_size": self.pool_size,
+                "clients": [{"name": c["name"], "pairs": [[k.hex(), v.hex()] for k, v in c["pairs"]], "flags": sorted(c["flags"])} for c in self.clients],
+                "ops": [[o[0], o[1], [st(x) for x in o[2]] if o[0] == "q" else o[2]] for o in self.ops]}
+
+    @staticmethod
+    def from_json(j):
+        s = Scn.__new__(Scn)
+        s.pool_size, s.rng, s.maxlen, s.flags = j["pool_size"], None, 0, set()
+        s.clients = [{"name": c["name"], "pairs": [(bytes.fromhex(k), bytes.fromhex(v)) for k, v in c["pairs"]], "flags": set(c["flags"]),
+                      "alive": True, "txn": "I", "n": 0} for c in j["clients"]]
+        s.ops = []
+        for o in j["ops"]:
+            if o[0] == "q":
+                s.ops.append(("q", o[1], [dict(x, sql=bytes.fromhex(x["sql"])) for x in o[2]]))
+            else:
+                s.ops.append(("x", o[1], o[2]))
+        for c in s.clients:
+            s.flags |= c["flags"]
+        return s
+
     def describe(self):
         return {"pool_size": self.pool_size,
                 "clients": [{"name": c["name"], "startup": [[k.decode("latin1"), v.decode("utf-8", "replace")[:200]] for k, v in c["pairs"]]} for c in self.clients],
@@ -406,6 +436,7 @@ class Obs:
         self.replies = {}       # client -> list of list[(k,v)] S frames per message, in order
         self.timeline = {}      # conn -> list of items
         self.msgs = {}          # (client, index) -> {"conn", "tracked", "dirty", "sync", "out_S"}
+        self.order = []         # client messages in the order they reached a backend
         sent = scn.sent_sql()
         names = {c["name"]: c for c in scn.clients}
         evs = res.get("events", [])
@@ -436,6 +467,7 @@ class Obs:
                             "dirty": untracked_dirty(e["state"]), "txn": e["state"]["txn"], "sync": pend_sync.pop(conn, None),
                             "out_S": [], "conn": conn, "sql": sql, "state_gucs": e["state"].get("gucs", [])}
                     tl.append(item)
+                    self.order.append(item)
                     self.msgs[(cname, idx)] = item
                     cur[conn] = item
                 else:
@@ -485,7 +517,6 @@ def spec_est_startup(pairs):
 def monitors(scn, obs):
     """the property itself, evaluated on what clients and backend saw; no model involved"""
     probs = list(obs.problems)
-    epoch = {}       # conn -> (client, epoch number)
     setter = {}      # (conn, guc) -> (client, epoch, in_txn)
     for c in scn.clients:
         name = c["name"]
@@ -498,59 +529,55 @@ def monitors(scn, obs):
             if st["S"].get(k) != est[k]:
                 probs.append(("told-at-startup", "client %s established %s=%r but was told %r" % (name, k, est[k][:80], (st["S"].get(k) or "")[:80]), c["flags"]))
         c["_est"] = est
-    # walk every connection in arrival order
-    for conn, tl in sorted(obs.timeline.items()):
-        ep = 0
-        last = None
-        for it in tl:
-            if it["t"] != "client":
+    # walk all client messages in the order they reached a backend
+    sent = scn.sent_sql()
+    ep = {}          # conn -> (last client, epoch number)
+    for it in obs.order:
+        conn, name = it["conn"], it["c"]
+        last, n = ep.get(conn, (None, 0))
+        if name != last:
+            n += 1
+        ep[conn] = (name, n)
+        if name.startswith("z"):
+            est, flags = dict(POOL_DEFAULT), set()
+        else:
+            c = next(x for x in scn.clients if x["name"] == name)
+            est, flags = c.get("_est"), c["flags"]
+            if est is None:
                 continue
-            name = it["c"]
-            if name != last:
-                ep += 1
-                last = name
-            if name.startswith("z"):
-                est, flags = dict(POOL_DEFAULT), set()
-            else:
-                c = next(x for x in scn.clients if x["name"] == name)
-                est, flags = c.get("_est"), c["flags"]
-                if est is None:
-                    continue
-            for k in TRACKED:
-                if it["tracked"].get(k) != est[k]:
-                    probs.append(("not-synced", "connection %s had %s=%r when %s's message #%d (%s) arrived; the client established %r" %
-                                  (conn, k, (it["tracked"].get(k) or "")[:80], name, it["i"], it["sql"][:60], est[k][:80]), flags))
-            for g in it["state_gucs"]:
-                k = g.split("=", 1)[0]
-                if k in TRACKED:
-                    continue
-                s = setter.get((conn, k))
-                if s is None or s[0] != name or s[1] != ep:
-                    oos = s is not None and s[2]
-                    if not oos:
-                        probs.append(("cross-client", "connection %s carried %s (set by %s) when %s's message #%d arrived" % (conn, g[:80], s and s[0], name, it["i"]), flags))
-            # record this message's own SETs of untracked GUCs
+        for k in TRACKED:
+            if it["tracked"].get(k) != est[k]:
+                probs.append(("not-synced", "connection %s had %s=%r when %s's message #%d (%s) arrived; the client established %r" %
+                              (conn, k, (it["tracked"].get(k) or "")[:80], name, it["i"], it["sql"][:60], est[k][:80]), flags))
+        for g in it["state_gucs"]:
+            k = g.split("=", 1)[0]
+            if k in TRACKED:
+                continue
+            st = setter.get((conn, k))
+            if st is None or st[0] != name or st[1] != n:
+                if not (st is not None and st[2]):      # a SET inside a transaction block is outside the property (and C02)
+                    probs.append(("cross-client", "connection %s carried %s (set by %s) when %s's message #%d arrived" % (conn, g[:80], st and st[0], name, it["i"]), flags))
+        # record this message's own SETs of untracked GUCs
+        op = sent.get(it["sql"])
+        if op and op[0] == "q":
+            intx = it["txn"] != "I"
+            for x in op[2]:
+                if x.get("txn") == "begin":
+                    intx = True
+                if x.get("txn") in ("commit", "rollback"):
+                    intx = False
+                if x.get("untracked"):
+                    setter[(conn, x["key"])] = (name, n, intx)
+        # the client's expectation follows what the server reported during this message
+        rep = obs.replies.get(name, [])
+        if it["i"] < len(rep):
+            seen = rep[it["i"]]["S"]
+            if seen != it["out_S"]:
+                probs.append(("told-differs", "%s's message #%d: the backend wrote ParameterStatus %r, the client received %r" % (name, it["i"], it["out_S"][:6], seen[:6]), flags))
             if not name.startswith("z"):
-                op = scn.sent_sql().get(it["sql"])
-                if op and op[0] == "q":
-                    intx = it["txn"] != "I"
-                    for s in op[2]:
-                        if s.get("txn") == "begin":
-                            intx = True
-                        if s.get("txn") in ("commit", "rollback"):
-                            intx = False
-                        if s.get("untracked"):
-                            setter[(conn, s["key"])] = (name, ep, intx)
-            # the client's expectation follows what the server reported during this message
-            rep = obs.replies.get(name, [])
-            if it["i"] < len(rep):
-                seen = rep[it["i"]]["S"]
-                if seen != it["out_S"]:
-                    probs.append(("told-differs", "%s's message #%d: the backend wrote ParameterStatus %r, the client received %r" % (name, it["i"], it["out_S"][:6], seen[:6]), flags))
-                if not name.startswith("z"):
-                    for k, v in seen:
-                        if k in TRACKED:
-                            est[k] = v
+                for k, v in seen:
+                    if k in TRACKED:
+                        est[k] = v
     return probs
 
 
@@ -576,16 +603,21 @@ def model_ops(scn, obs):
         it = obs.msgs.get(("z%d" % i, 0))
         ops.append("OConnect %d [(%s, %s); (%s, %s)]" % (zi, cb(b"user"), cb(b"u"), cb(b"database"), cb(b"db")))
         ops.append("OQuery %d %d [SBegin]" % (zi, (it["conn"] - 1) if it else 0))
-    return "run_mock [%s]" % "; ".join(ops)
+    return "run_mock_c [%s]" % "; ".join(ops)
 
 
 def bs(x):
     return bytes(x).decode("utf-8", "replace")
 
 
+def cbool(x):
+    return x is True or x == ("#", "true") or x == "true"
+
+
 def project_model(scn, val):
-    """model log -> (per-client view, per-server view) in the vocabulary of Obs"""
-    log = vlib.parse_coq(val)
+    """model log (compact form) -> (per-client view, per-server view) in the vocabulary of Obs"""
+    tbl, log = vlib.parse_coq(val)
+    tbl = [bs(x) for x in tbl]
     names = [c["name"] for c in scn.clients] + ["z%d" % i for i in range(scn.pool_size)]
     percl = {n: {"startup": None, "msgs": []} for n in names}
     persrv = {}
@@ -593,27 +625,28 @@ def project_model(scn, val):
         if isinstance(e, str):
             e = (e,)
         k = e[0]
-        if k == "EvRefused":
+        if k == "CRefused":
             percl[names[e[1]]]["startup"] = "refused"
-        elif k == "EvTold":
+        elif k == "CTold":
             n = names[e[1]]
-            fr = [(bs(a), bs(b)) for a, b in e[2]]
+            fr = [(tbl[a], tbl[b]) for a, b in e[2]]
             if percl[n]["startup"] is None:
                 percl[n]["startup"] = dict(fr)
             else:
                 percl[n]["msgs"][-1]["told"] = fr
-        elif k == "EvSync":
-            persrv.setdefault(e[2] + 1, []).append({"t": "sync", "d": {bs(a): [bs(b)] for a, b in e[3]}})
-        elif k == "EvStmt":
-            _, c, s, co, dk, bv, cv, ev = e
+        elif k == "CSync":
+            persrv.setdefault(e[2] + 1, []).append({"t": "sync", "d": {tbl[a]: [tbl[b]] for a, b in e[3]}})
+        elif k == "CStmt":
+            _, c, s, co, dk, bv, eq1, eq2 = e
             n = names[c]
-            tr = {TRACKED[j]: (bs(v[1]) if v is not None else None) for j, v in enumerate(bv)}
-            item = {"t": "client", "c": n, "i": len(percl[n]["msgs"]), "tracked": tr, "dirty": sorted(set(bs(x) for x in dk)), "told": []}
+            tr = {TRACKED[j]: (tbl[v[1]] if v is not None else None) for j, v in enumerate(bv)}
+            item = {"t": "client", "c": n, "i": len(percl[n]["msgs"]), "tracked": tr, "dirty": sorted(set(tbl[x] for x in dk)), "told": [],
+                    "synced": cbool(eq1), "est": cbool(eq2)}
             percl[n]["msgs"].append(item)
             persrv.setdefault(s + 1, []).append(item)
-        elif k == "EvClean":
-            persrv.setdefault(e[1] + 1, []).append({"t": "clean", "rb": e[2], "ra": e[3]})
-        elif k == "EvReplaced":
+        elif k == "CClean":
+            persrv.setdefault(e[1] + 1, []).append({"t": "clean", "rb": cbool(e[2]), "ra": cbool(e[3])})
+        elif k == "CReplaced":
             persrv.setdefault(e[1] + 1, []).append({"t": "replaced"})
     return percl, persrv
 
@@ -752,6 +785,10 @@ def boundary_scenarios(rng):
         out.append(mk(1, cl, ops))
     for v in NONASCII + [b""]:
         out.append(mk(1, [([], []), ([], [])], [("q", 0, [("set", "application_name", v, False)]), ("q", 1, ["select"]), ("q", 0, ["select"]), ("q", 1, ["select"])]))
+    # very long values (20 kB), at startup and through SET
+    big = (b"x'y\\z \"" + "é".encode()) * 2100
+    out.append(mk(1, [([(b"application_name", (b"L'\\" * 7000)[:20000])], []), ([], [])],
+                  [("q", 0, ["select"]), ("q", 1, [("set", "TimeZone", big[:20000], False)]), ("q", 0, ["select"]), ("q", 1, ["select"])]))
     # standard_conforming_strings changes in the same batch as a backslash value, both directions
     out.append(mk(1, [([(b"standard_conforming_strings", b"off"), (b"application_name", b"a\\b'c")], []),
                       ([(b"application_name", b"x\\y")], [])],
@@ -841,14 +878,13 @@ def check(run):
     # ---- scenarios
     scns = boundary_scenarios(rng)
     nb = len(scns)
-    nrand = 260 if quick else 7000
+    nrand = 300 if quick else 7000
     classes = ["nonascii", "spelling", "empty", "invalid"]
     for i in range(nrand):
         ps = 1 if rng.random() < 0.6 else 2
         nc = rng.choice([2, 2, 3])
         with_class = rng.random() < 0.12
-        long_one = (i % 97 == 5)
-        scns.append(Scn(rng, ps, nc, rng.randint(6, 16), classes if with_class else (), maxlen=20000 if long_one else 3000))
+        scns.append(Scn(rng, ps, nc, rng.randint(6, 16), classes if with_class else (), maxlen=1500 if i % 53 == 7 else 400))
     run.log("%d scenarios (%d hand-made)" % (len(scns), nb))
 
     evals = 0
@@ -900,7 +936,7 @@ def check(run):
                         dist["checkins_with_rollback"] += bool(it["rb"])
             # monitors: the property on the implementation's own trace
             for kind, text, flags in monitors(s, o):
-                classify(run, known, flags, kind, text, {"input": s.describe(), "monitor": kind, "wire": s.wire()})
+                classify(run, known, flags, kind, text, {"input": s.describe(), "monitor": kind, "scenario": s.to_json()})
             # differential
             if v is not None:
                 run.cov["traces_validated_against_impl"] += 1
@@ -917,7 +953,7 @@ def check(run):
     run.cov["rule"] = ("scenarios = %d hand-made (every value of the nasty list as startup value and through SET on one shared connection; scs=off together with a backslash value; "
                        "SET in committed / rolled-back / failed transactions; SET LOCAL; disconnect inside a transaction; untracked GUCs; COMMIT;SET in one message; the four startup findings) "
                        "+ %d seeded random (2-3 clients, pool_size 1 or 2, 6-16 messages of 1-3 statements, startup sets over the five keys, values: words, quotes, backslashes, comment and "
-                       "dollar markers, newlines, non-ASCII UTF-8, empty, up to 20 kB). distinct = distinct (statement shape, backend tracked values) and (key, value) pairs seen in SET batches" % (nb, nrand))
+                       "dollar markers, newlines, non-ASCII UTF-8, empty, up to 1.5 kB; 20 kB in a hand-made one). distinct = distinct (statement shape, backend tracked values) and (key, value) pairs seen in SET batches" % (nb, nrand))
     run.cov["samples"] = samples[:4]
     run.cov["input_distribution"] = dist
     run.log("scenarios=%d client messages=%d sync batches=%d distinct=%d" % (evals, dist["client_messages"], dist["sync_batches"], len(distinct)))
@@ -929,7 +965,7 @@ def check(run):
         s, d = first_tie
         run.violation("tie-broken", "model and implementation disagree: " + d,
                       {"correspondence": "coq/Params/Model.v run_mock vs pgcat on the wire", "input": s.describe(), "disagreement": d,
-                       "wire": s.wire(), "note": "no monitor violation on this or any other scenario of the run"}, found_input=False)
+                       "scenario": s.to_json(), "note": "no monitor violation on this or any other scenario of the run"}, found_input=False)
     if not proof_ok and not run.violations and not run.broken:
         run.violation("proof-broken", "Params/Props.v no longer checks; the monitors found no failing input on %d scenarios" % evals,
                       {"theorem": "Params/Props.v", "coq_log": log[-2500:]}, found_input=False)
@@ -938,15 +974,32 @@ def check(run):
 
 
 def replay(run, path):
+    """re-run the stored scenario on the implementation: monitors (the property itself) and the model differential"""
     r = json.load(open(path))
-    print(json.dumps({k: v for k, v in r.items() if k != "wire"}, indent=1)[:4000])
-    if "wire" not in r:
+    print(json.dumps({k: v for k, v in r.items() if k not in ("scenario",)}, indent=1, ensure_ascii=False)[:4000])
+    if "scenario" not in r:
         return 0
     ok, blog, bins = vlib.cargo_build(["wire"])
-    res = W.run_scenario(bins["wire"], r["wire"])
+    if not ok:
+        print("harness does not build"); return 2
+    s = Scn.from_json(r["scenario"])
+    res = W.run_scenario(bins["wire"], s.wire())
+    o = Obs(s, res)
     for e in res.get("events", []):
         if e.get("ev") == "msg" and e.get("tag") == "Q":
-            print("backend conn %s <- %r   tracked=%s" % (e["conn"], e["detail"].get("sql", "")[:160], e["tracked"]))
+            print("backend conn %s <- %r   tracked=%s dirty=%s" % (e["conn"], e["detail"].get("sql", "")[:160], {k: e["tracked"].get(k) for k in TRACKED}, e["state"]["gucs"]))
         elif e.get("ev") == "startup_done":
-            print("client %s startup: %s" % (e["who"], {f["k"]: f["v"] for f in e["frames"] if f["t"] == "S" and f["k"] in TRACKED}))
-    return 1
+            print("client %s startup ok=%s: %s" % (e["who"], e.get("auth_ok"), {f["k"]: f["v"] for f in e["frames"] if f["t"] == "S" and f["k"] in TRACKED}))
+    probs = monitors(s, o)
+    for kind, text, flags in probs:
+        print("MONITOR %s %s%s" % (kind, text, (" [known class %s]" % sorted(flags)) if flags else ""))
+    d = None
+    try:
+        v = vlib.coq_eval("c12r", PREAMBLE, [model_ops(s, o)])[0]
+        d = diff_model(s, o, v)
+    except Exception as ex:
+        print("model evaluation failed:", str(ex)[:300])
+    print("MODEL-DIFF:", d)
+    bad = [p for p in probs if not p[2]]
+    print("replay: %d monitor violations (%d outside known classes), model differential %s" % (len(probs), len(bad), "DISAGREES" if d else "agrees"))
+    return 1 if (bad or d) else 0
